@@ -168,6 +168,48 @@ fn run_rs<V: VirtualFileSystem>(be: &Be<V>, data: &[u8], ops: &[ROp]) -> Value {
            "ops": Value::Array(ops.iter().map(rop_json).collect()), "res": Value::Array(res)})
 }
 
+/// a read handle across a rewrite of its file THROUGH THE SAME VFS: open, read k bytes, write_all(b), read to the end.  What the
+/// second read returns is backend business (a live descriptor sees the new bytes, a snapshot the old ones) and is not judged; it has
+/// to be the same whether the backend is used directly or through the Vfs enum (C13).
+fn run_rw<V: VirtualFileSystem>(be: &Be<V>, a: &[u8], b: &[u8], k: usize) -> Value {
+    let setup = be.setup(Some(a));
+    let opened = guard(|| be.vfs.read(be.open_path()));
+    let open = open_res(&opened);
+    let mut res = vec![];
+    if let (Ok(()), Ok(Ok(mut h))) = (setup, opened) {
+        let mut buf = vec![0xEEu8; k];
+        res.push(match guard(|| h.read(&mut buf)) {
+            Ok(Ok(n)) => json!({"o": "ok", "n": cap(n as u64), "v": bytes(&buf[..n.min(k)])}),
+            Ok(Err(e)) => json!({"o": io_kind(&e), "n": 0, "v": []}),
+            Err(m) => json!({"o": "panic", "n": 0, "v": [], "m": pmsg(&m)}),
+        });
+        res.push(match guard(|| be.vfs.write_all(&be.file, b)) {
+            Ok(Ok(())) => json!({"o": "ok", "n": 0, "v": []}),
+            Ok(Err(e)) => json!({"o": err_kind(&e), "n": 0, "v": []}),
+            Err(m) => json!({"o": "panic", "n": 0, "v": [], "m": pmsg(&m)}),
+        });
+        let mut rest: Vec<u8> = vec![];
+        let r = guard(|| -> std::io::Result<()> {
+            let mut chunk = vec![0u8; 4096];
+            for _ in 0..64 {
+                let n = h.read(&mut chunk)?;
+                if n == 0 {
+                    break;
+                }
+                rest.extend_from_slice(&chunk[..n]);
+            }
+            Ok(())
+        });
+        res.push(match r {
+            Ok(Ok(())) => json!({"o": "ok", "n": cap(rest.len() as u64), "v": bytes(&rest)}),
+            Ok(Err(e)) => json!({"o": io_kind(&e), "n": 0, "v": []}),
+            Err(m) => json!({"o": "panic", "n": 0, "v": [], "m": pmsg(&m)}),
+        });
+        let _ = guard(move || drop(h));
+    }
+    json!({"k": "rw", "be": be.name, "open": open, "res": Value::Array(res)})
+}
+
 fn wop_json(op: &WOp) -> Value {
     match op {
         WOp::Write(d) => json!({"op": "write", "d": bytes(d)}),
@@ -611,6 +653,23 @@ fn main() {
                     let d = run_rs(&Be { name: "memfs", vfs: Memfs::new(), file: PathBuf::from("/f"), spell: sp }, data, ops);
                     let v = run_rs(&Be { name: "memfs", vfs: Vfs::memfs(), file: PathBuf::from("/f"), spell: sp }, data, ops);
                     out.rec(&json!({"k": "wr", "be": "memfs", "what": "rs", "direct": d, "via": v}));
+                }
+            }
+            // a read handle across a rewrite of its file (small: everything fits any read-ahead buffer; large: beyond 8192 bytes)
+            let big_a: Vec<u8> = (0..9000u32).map(|i| (i % 251) as u8).collect();
+            let big_b: Vec<u8> = (0..9000u32).map(|i| ((i + 100) % 241) as u8).collect();
+            let cases: Vec<(&[u8], &[u8], usize)> = vec![(&pattern[..3], &pattern[1..4], 1), (&pattern[..3], &pattern[..1], 0), (&big_a, &big_b, 1),
+                                                       (&big_a, &big_b, 8192), (&big_a, &pattern[..3], 1), (&pattern[..3], &big_b, 1)];
+            for (a, b, k) in cases {
+                if mine(&mut id) {
+                    prog.mark(id, "wr-rw");
+                    let sp = next();
+                    let d = run_rw(&Be { name: "stdfs", vfs: Stdfs::new(), file: sandbox.join("f"), spell: sp }, a, b, k);
+                    let v = run_rw(&Be { name: "stdfs", vfs: Vfs::stdfs(), file: sandbox.join("f"), spell: sp }, a, b, k);
+                    out.rec(&json!({"k": "wr", "be": "stdfs", "what": "rw", "direct": d, "via": v}));
+                    let d = run_rw(&Be { name: "memfs", vfs: Memfs::new(), file: PathBuf::from("/f"), spell: sp }, a, b, k);
+                    let v = run_rw(&Be { name: "memfs", vfs: Vfs::memfs(), file: PathBuf::from("/f"), spell: sp }, a, b, k);
+                    out.rec(&json!({"k": "wr", "be": "memfs", "what": "rw", "direct": d, "via": v}));
                 }
             }
         },
